@@ -35,4 +35,16 @@ def regularCmd (as : List (Name × Value)) (body : List Op) : List Op :=
 def functionCmd (as : List (Name × Value)) (params : List String) (body : List Op) : List Op :=
   [Op.push .volatile] ++ tempOps as ++ [Op.push (.regular params)] ++ body ++ [Op.pop, Op.pop]
 
+/-- the `readonly` built-in (`yash-builtin/src/readonly.rs`: `sv.scope = Global`, attribute
+    `ReadOnly`) for one operand `n` or `n=v`: `get_or_create_variable(n, Global)`, `assign`,
+    `make_read_only` -/
+def readonlyOps (n : Name) (ov : Option Value) (loc : Nat) : List Op :=
+  match ov with
+  | none => [Op.getOrNew n .global, Op.readonly n .global loc]
+  | some v => [Op.assign n .global v none, Op.readonly n .global loc]
+
+/-- what a function called as `as… f ps…` starts its body in -/
+def enterFunction (as : List (Name × Value)) (ps : List String) : List Op :=
+  [Op.push .volatile] ++ tempOps as ++ [Op.push (.regular ps)]
+
 end YashModel.Variable
